@@ -177,7 +177,13 @@ def write_project(root, files, seed, opts_extra, name="Determinism", pages=True)
                 open(os.path.join(d, "modules.json"), "w").write(real)
             else:
                 json.dump({"ford-metadata": {"version": "0"}, "modules": mods}, open(os.path.join(d, "modules.json"), "w"))
-    site.write_project_file(proj, opts, body="Front page with [[gen_0]]. [gallery](|media|/gallery) [pages](|page|/sub) [top](|url|/module)" + (" External: [[vec]], [[norm]], [[mk_vec]], [[only_libb]]." if opts.get("external") else "") + "\n")
+    # the user's own aliases, some defined through others (whether or not those are expanded, the result is the same on every run)
+    opts["alias"] = {"vfdocs": "|page|/sub", "vfguide": "|vfdocs|/leaf.html", "vfintro": "|vfguide|#top", "vfword": "plain words", "vfdeep": "|vfintro| and |vfword|"}
+    if seed % 3 == 1 and pages:
+        # a second source directory that is the project directory itself, written with `..`: it holds the output directory (excluded from the
+        # search whatever the spelling) and the first source directory (every file once)
+        opts["src_dir"] = ["./src", "./pages/.."]
+    site.write_project_file(proj, opts, body="Front page with [[gen_0]]. [gallery](|media|/gallery) [pages](|page|/sub) [top](|url|/module) [guide](|vfguide|) [intro](|vfintro|) |vfdeep| |vfword|." + (" External: [[vec]], [[norm]], [[mk_vec]], [[only_libb]]." if opts.get("external") else "") + "\n")
     return proj
 
 
